@@ -246,9 +246,17 @@ def run_scenario(sc):
         except Exception as e:  # noqa
             rec.update({'k': 'err', 'exc': type(e).__name__ + ': ' + str(e)[:80]})
             return rec
-        out_b = call(s, sc['npseed'])
+        # the same calibration again, and once more on the events in another order: a refusal here is an outcome to be
+        # judged like the first one (Trace_C02: `perm_k`), not a failure of the harness
+        rec['perm_k'] = 'ok'
         p2 = rnd.permutation(len(pop))
-        out_p = call(s[p2], sc['npseed'] + 1)
+        try:
+            out_b = call(s, sc['npseed'])
+            out_p = call(s[p2], sc['npseed'] + 1)
+        except Exception as e:  # noqa
+            rec['perm_k'] = 'err'
+            rec['exc'] = 'second/permuted call: ' + type(e).__name__ + ': ' + str(e)[:80]
+            out_b = out_p = out
     labels = np.asarray(out.clustering['labels'])
     rec['k'] = 'ok'
     rec['nlabels'] = int(len(labels))
@@ -398,7 +406,7 @@ def main(chk, replay=None):
     for s, r in keep:
         rr = {k: v for k, v in r.items() if k not in ('exc', 'margin_ok')}
         if rr['k'] == 'err':
-            rr.update({'sizes': rr.get('sizes', [1]), 'nlabels': 0, 'nevents': 0, 'table': [[0]], 'statorder': [[0]], 'lenrfi': [0], 'lenmef': [0], 'selected': [[False]],
+            rr.update({'sizes': rr.get('sizes', [1]), 'perm_k': 'ok', 'nlabels': 0, 'nevents': 0, 'table': [[0]], 'statorder': [[0]], 'lenrfi': [0], 'lenmef': [0], 'selected': [[False]],
                        'rfi_is_true_median': False, 'fit_equals_reference': False, 'err_permille': 0, 'reproducible': False,
                        'perm_same_selection': False})
         recs2.append(rr)
